@@ -70,6 +70,9 @@ theorem cx_exec1raw (l : Ledger) (p : Prim) (h : CxInv l) : CxInv (exec1raw l p)
   | userCloseAll =>
     simp only [exec1raw] at he
     exact h e (List.mem_filter.mp he).1 hb
+  | closeQ hq =>
+    simp only [exec1raw] at he
+    exact h e (List.mem_filter.mp he).1 hb
   | transfer src dst =>
     simp only [exec1raw] at he
     split at he
@@ -161,6 +164,9 @@ theorem stdio_exec1raw (l : Ledger) (p : Prim) (hok : p.ok = true) (hI : IdInv l
       · exact h e (List.mem_filter.mp he).1 hs
       · exact h e he hs
   | userCloseAll =>
+    simp only [exec1raw] at he
+    exact h e (List.mem_filter.mp he).1 hs
+  | closeQ hq =>
     simp only [exec1raw] at he
     exact h e (List.mem_filter.mp he).1 hs
   | transfer src dst =>
@@ -260,6 +266,18 @@ theorem ev_exec1raw (l : Ledger) (p : Prim) (hok : p.ok = true) (hst : StdioInv 
     · exact h ev hev
     · split at hev <;> exact h ev hev
   | userCloseAll => exact h ev hev
+  | closeQ hq =>
+    simp only [exec1raw, List.mem_append, List.mem_reverse, List.mem_map, List.mem_filter, decide_eq_true_eq] at hev
+    rcases hev with ⟨e, ⟨hem, ho⟩, rfl⟩ | hev
+    · refine ⟨?_, Or.inl (by rw [ho]; rfl)⟩
+      cases hs : e.stdio with
+      | false => rfl
+      | true =>
+        exfalso
+        have := (hst e hem hs).2
+        rw [ho] at this
+        rcases this with h1 | ⟨hh, h1⟩ | h1 <;> cases h1
+    · exact h ev hev
   | transfer src dst =>
     simp only [exec1raw] at hev
     split at hev <;> exact h ev hev
@@ -343,6 +361,7 @@ theorem id_exec1raw (l : Ledger) (p : Prim) (h : IdInv l) : IdInv (exec1raw l p)
       · exact idp_filter _ h'
       · exact h'
   | userCloseAll => exact idp_filter _ h'
+  | closeQ hq => exact idp_filter _ h'
   | transfer src dst =>
     simp only [exec1raw]
     split
@@ -441,6 +460,7 @@ theorem uniq_exec1raw (l : Ledger) (p : Prim) (h : UniqP l.led) : UniqP (exec1ra
       · exact uniq_filter _ h
       · exact h
   | userCloseAll => exact uniq_filter _ h
+  | closeQ hq => exact uniq_filter _ h
   | transfer src dst =>
     simp only [exec1raw]
     split
